@@ -22,31 +22,31 @@ CHECKS = {
          "same simulator; exact landing of sample seeks, one-sample landing of time seeks, page-bound landing of page seeks (page table from the muxer), rejection of out-of-range targets without moving; targets biased to link/page/packet boundaries",
          "histories and targets are sampled"),
  "C09": ("vfsim", "exploration", "6 C09",
-         "same simulator, fault-free configuration: link table (count, info, comments, serials, lengths, totals) and linear read of every link compared with each link decoded alone; all page policies, read-size schedules, knobs, foreign multiplexed streams, cut links",
+         "same simulator, fault-free configuration: link table (count, info, comments, serials, lengths, totals) and linear read of every link compared with each link decoded alone; all page policies, read-size schedules, knobs, foreign multiplexed streams (their BOS page before or after ours), cut links; the link table is asked again at every link change of the read and at info ops",
          "chains of 1-5 links from the seeded corpus"),
  "C10": ("vfsim", "exploration", "6 C10",
-         "one physical stream, four consumers (reference, packet API over libogg fed in seeded fragments, vorbisfile seekable, vorbisfile non-seekable incl. initial-bytes buffer) under seeded read-callback size schedules: bit-identical PCM, no OV_HOLE",
+         "one physical stream, four consumers (reference, packet API over libogg fed in seeded fragments, vorbisfile seekable, vorbisfile non-seekable incl. initial-bytes buffer) under seeded read-callback size schedules, with read callbacks that leave errno set although they delivered data: bit-identical PCM, no OV_HOLE",
          "byte-delivery schedules are sampled"),
  "C11": ("pktsim+vfsim", "fault_enumeration", "6 C11",
          "for sampled links, the disturbance position is enumerated over packet indices for each fault kind (drop, duplicate, truncate, bit flips, foreign packet, restart, fresh decoder); chunks from the second packet after the disturbance must be bit-identical to the clean decode; plus, through vorbisfile (30 % of the budget): one page lost / failing its checksum / repeated in an intact stream, read through: bit-identical audio at the reported positions away from the gap",
          "links are sampled; multi-fault plans are sampled"),
  "C12": ("vfsim", "fault_enumeration", "6 C12",
-         "I/O faults (EIO, premature EOF, 1-byte read, seek -1, tell -1; one-shot / n calls / until heal) attached to a callback ordinal of an op of a seeded scenario; error-or-EOF during faults, no close behind the caller, a seek that returns 0 under a fault must stand where a seek stands (or at end-of-stream); exact recovery (C07/C08 oracle) after heal when the open had completed",
-         "fault position is sampled per run in quick tier, swept per scenario in thorough tier"),
+         "I/O faults (EIO, premature EOF, 1-byte read, seek -1, tell -1; one-shot / n calls / until heal) attached to a callback ordinal of an op of a seeded scenario; error-or-EOF during faults, no close behind the caller, a seek that returns 0 under a fault must stand where a seek stands (or at end-of-stream), an open that returns 0 although a read failed with errno set must report the true link table; ov_crosslap with either handle's source failing; exact recovery (C07/C08 oracle) after heal when the open had completed",
+         "the fault position is enumerated over every callback of the target op in half (quick) / 80 % (thorough) of the scenarios, sampled in the rest"),
  "C13": ("vfsim", "exploration", "6 C13",
-         "allocator ledger (link-time --wrap of malloc family, covers libvorbis and libogg) evaluated at the end of every simulated run after the documented clear calls, clears issued twice in a share of runs, close-callback count from the SimFile log; workload mix of intact, I/O-fault and damaged-stream runs plus encoder template sweep and packet-decoder header prefixes",
+         "allocator ledger (link-time --wrap of malloc family, covers libvorbis and libogg) evaluated at the end of every simulated run after the documented clear calls, clears issued twice in a share of runs, close-callback count from the SimFile log; workload mix of intact, I/O-fault (fault position enumerated over the callbacks of the open in half of them) and damaged-stream runs plus encoder template sweep and packet-decoder header prefixes",
          "allocation failure is not injected (unhandled by design)"),
  "C14": ("encsim", "exploration", "6 C14",
-         "rate manager driven by real analysis and by a stub analysis stage emitting seeded adversarial packet-size sequences; token-bucket invariant checked online over every window of the packet history against the limits in force (internal set-up, cross-checked with OV_ECTL_RATEMANAGE2_GET), and the reservoir fill level read after every block (0 <= fill <= reservoir_bits); limits set through the control interface and through vorbis_encode_init, reservoirs down to 0 bits, out-of-range bias",
+         "rate manager driven by real analysis and by a stub analysis stage emitting seeded adversarial packet-size sequences; token-bucket invariant checked online over every window of the packet history against the limits in force (internal set-up, cross-checked with OV_ECTL_RATEMANAGE2_GET), and the reservoir fill level read after every block (0 <= fill <= reservoir_bits); limits set through the control interface and through vorbis_encode_init, reservoirs down to 0 bits, out-of-range bias, hard maxima down to 0.5 kbit/s on short-block signals; violations that need an earlier encoder of the same process are replayed with that run as a prelude",
          "one-bit-per-block rounding allowance as stated in DESIGN"),
  "C17": ("vfsim", "exploration", "6 C17",
-         "ov_read in all (word, sign, endian, length) combinations inside seek/read histories over SimFile: bytes must equal round/clip/interleave of the reference floats at the pre-call position, whole frames, canary beyond the return value, EINVAL for sub-frame buffers, FP environment preserved",
+         "ov_read in all (word, sign, endian, length) combinations inside seek/read histories over SimFile: bytes must equal round/clip/interleave of the reference floats at the pre-call position, whole frames, canary beyond the return value, EINVAL for sub-frame and negative buffer lengths and non-positive word sizes, FP environment preserved",
          "conversion arithmetic itself is a pure function; simulation contributes the history context (streaming and seekable handles, half-rate toggles, 254/255-channel and hand-built streams with samples far outside +-1, non-idempotent filters with large gains)"),
  "C18": ("mtsim", "exploration", "6 C18",
-         "2-6 independent codec tasks on real threads parked and released by a seeded scheduler with preemption at every libvorbis CFG edge, allocator call and I/O callback; each task's observation hash must equal its solo run and a solo run under a different heap/stack poison pattern and stale errno; encoders from 8 to 192 kHz and down to 0 samples, decoders and vorbisfile handles on encoder-made and hand-built streams, files with trailing bytes or cut inside their last pages",
+         "2-6 independent codec tasks on real threads parked and released by a seeded scheduler with preemption at every libvorbis CFG edge, allocator call and I/O callback; each task's observation hash must equal its solo run and a solo run under a different heap/stack poison pattern and stale errno (control-interface queries into poisoned caller storage and vorbisfile query calls included); encoders from 8 to 192 kHz and down to 0 samples, decoders and vorbisfile handles on encoder-made and hand-built streams, files with trailing bytes or cut inside their last pages",
          "preemption granularity is a CFG edge; torn accesses inside a basic block are not reproduced"),
  "C19": ("vfsim", "exploration", "6 C19",
-         "twin handles (lapped vs plain) driven through the same seeded history over SimFile: return codes, landing position, bit-identity outside the first half short block, computed window-weighted cross-fade inside it (old audio from the reference model, or from the plain twin for handles without decode state / at half rate / after a failed seek), ov_crosslap on two handles at equal and different half-rate settings",
+         "twin handles (lapped vs plain) driven through the same seeded history over SimFile: return codes, landing position, bit-identity outside the first half short block, computed window-weighted cross-fade inside it (old audio from the reference model, or from the plain twin for handles without decode state / at half rate / after a failed seek), ov_crosslap on two handles at equal and different half-rate settings and onto a handle with lap+read history; lapped seeks whose lap data is collected across one lost / rejected / repeated page",
          "cross-fade compared with 8-ulp tolerance against the spec window formula; K2/K3 recorded as known findings"),
  "C20": ("vfsim", "exploration", "6 C20",
          "half-rate reference model per link; toggles at arbitrary points of seek/read histories (seekable) or before the first read (streaming); refusal clause decided by a twin that performs a no-op toggle",
